@@ -7,7 +7,8 @@ Open Scope Z_scope.
 
 
 (* after any history of construction, timing assignment, append (arrays with timestamps, waveforms,
-   sequences), load_data, sample_count / capacity assignment: every object satisfies it *)
+   sequences), load_data, sample_count / capacity assignment and pickling (PRepickle: an object replaced by its
+   pickle / deepcopy round trip): every object satisfies it *)
 Theorem C09_reachable : forall ops p, pool_good p -> run_wf p ops ->
   Forall irregular_ok (fold_left pnext ops p).
 Proof. exact irregular_reachable. Qed.
@@ -33,3 +34,11 @@ Theorem C09_get_all_timestamps : forall r o l, good o -> has_timing (o_kind o) =
   get_timestamps r (o_timing o) 0 (Z.of_nat (o_count o)) = Ok l.
 Proof. exact irregular_get_all_timestamps. Qed.
 Print Assumptions C09_get_all_timestamps.
+
+(* ... and pickling: the copy that a pickle / deepcopy round trip puts in an object's place keeps the invariant, shows
+   the same samples and carries the same timing and properties, in a buffer without offset or slack *)
+Theorem C09_pickled_copy : forall o, good o ->
+  good (repickle o) /\ view (repickle o) = view o /\ o_timing (repickle o) = o_timing o /\ o_count (repickle o) = o_count o
+  /\ o_props (repickle o) = o_props o /\ o_start (repickle o) = 0%nat /\ cap (repickle o) = o_count o.
+Proof. exact repickle_spec. Qed.
+Print Assumptions C09_pickled_copy.
